@@ -1,5 +1,6 @@
 import Hgxv.Model.Wire
 import Hgxv.Model.C08
+import Hgxv.Model.C08Hist
 /-! Line protocol for C08.  State: current Hypergraph (nodes, hyperedges), current generic keyed container
 (Temporal / Multiplex: one member list per record) and current directed hypergraph.
 Filter token `<f>`: `n` (none) | `s<int>` (size=) | `o<int>` (order=).
@@ -10,7 +11,12 @@ Filter token `<f>`: `n` (none) | `s<int>` (size=) | `o<int>` (order=).
   `nbrs x f`                              -> sorted neighbours | `rej`
   `bfs x f`, `ncomp x f`                  -> sorted visited set | `rej`
   `cc f`                                  -> components (each sorted) in discovery order
-  `conn f`, `ncc f`, `largest f`, `lsize f`, `iso f`, `isiso x f` -/
+  `conn f`, `ncc f`, `largest f`, `lsize f`, `iso f`, `isiso x f`
+History model (`C08.Hist`, several Hypergraph objects, object index `i`):
+  `hnew` (one empty object), `hn i x`, `he i <e>`, `hre i <e>`, `hrn i x <0|1 keep_edges>`, `hclr i`, `hcp i`, `hsub i <nodes>`
+                                          -> `ok` | `rej` (absent hyperedge / node / object: the code raises)
+  `hshow i`                               -> `<hyperedges sorted>|<nodes sorted>` of object i
+  `huse i`                                -> `ok`: the queries above now speak about object i -/
 open Wire C08
 
 structure St where
@@ -20,6 +26,7 @@ structure St where
   gkeys : List (Nat × List Nat) := []
   dnodes : List Nat := []
   dkeys : List (List Nat × List Nat) := []
+  hist : List Hist.Content := [{}]
 
 def filt? (s : String) : Option Filt :=
   if s = "n" then some Filt.none
@@ -65,7 +72,40 @@ def query (s : St) (f : Filt) : List String → String
   | ["isiso", x] => showOBool (isIsolated? s.nodes s.es f x.toNat!)
   | _ => "bad-op"
 
+def hop (s : St) (op : Hist.Op) : St × String :=
+  match Hist.step s.hist op with
+  | some h => ({ s with hist := h }, "ok")
+  | none => (s, "rej")
+
 def step (s : St) : List String → St × String
+  | ["hnew"] => ({ s with hist := [{}] }, "ok")
+  | ["hn", i, x] => match i.toNat?, x.toNat? with
+    | some i, some x => hop s (.addNode i x)
+    | _, _ => (s, "bad-op")
+  | ["he", i, e] => match i.toNat?, natsInner? e with
+    | some i, some e => hop s (.addEdge i e)
+    | _, _ => (s, "bad-op")
+  | ["hre", i, e] => match i.toNat?, natsInner? e with
+    | some i, some e => hop s (.removeEdge i e)
+    | _, _ => (s, "bad-op")
+  | ["hrn", i, x, k] => match i.toNat?, x.toNat? with
+    | some i, some x => hop s (.removeNode i x (k == "1"))
+    | _, _ => (s, "bad-op")
+  | ["hclr", i] => match i.toNat? with
+    | some i => hop s (.clear i)
+    | _ => (s, "bad-op")
+  | ["hcp", i] => match i.toNat? with
+    | some i => hop s (.copy i)
+    | _ => (s, "bad-op")
+  | ["hsub", i, ns] => match i.toNat?, nats? ns with
+    | some i, some ns => hop s (.sub i ns)
+    | _, _ => (s, "bad-op")
+  | ["hshow", i] => match i.toNat?.bind (fun i => s.hist[i]?) with
+    | some c => (s, showNatss (sortLex (c.es.map sortNats)) ++ "|" ++ showNats (sortNats c.nodes))
+    | none => (s, "rej")
+  | ["huse", i] => match i.toNat?.bind (fun i => s.hist[i]?) with
+    | some c => ({ s with nodes := c.nodes, es := c.es }, "ok")
+    | none => (s, "rej")
   | ["load", es, nodes] =>
     match natss? es, nats? nodes with
     | some e, some n => ({ s with nodes := n, es := e }, "ok")
